@@ -185,6 +185,90 @@ def registry_history(tier, seed):
     return fails, n_eval, sorted(seen_fn)
 
 
+def caller_reuse(tier, seed):
+    """a step's recorded parameters are the step's own: the caller goes on using (and changing in place) the objects it passed —
+    a grid array, a list of regions, a nested list, a phase array — and the result's live arrays are changed in place too;
+    the recorded history of the result must stay exactly what it was when the step returned"""
+    import numpy as np, dnplab as dnp, warnings, io, contextlib, copy
+    from oracles import _eq
+    rng = random.Random(seed * 7919 + 1111)
+    fails, n_eval = [], 0
+    x = np.linspace(-10.0, 10.0, 41)
+
+    def base(nh):
+        d = dnp.DNPData(np.exp(-(x ** 2))[:, None] * (1.0 + 0.5j) * np.arange(1.0, 4.0)[None, :], ["f2", "n"], [x.copy(), np.arange(3.0)])
+        for j in range(nh):
+            d = dnp.left_shift(d, "f2", 0)
+        return d
+
+    def bump_array(a):
+        a += 2.0
+
+    def bump_list(l):
+        l.append((3.0, 6.0))
+
+    def bump_nested(l):
+        l[0][0] = -9.0
+
+    cases = [
+        ("interp:grid-array", lambda d, a: dnp.interp(d, "f2", a), lambda: np.linspace(-5.0, 5.0, 11), bump_array),
+        ("integrate:regions-list", lambda d, a: dnp.integrate(d, dim="f2", regions=a), lambda: [(-2.0, 2.0)], bump_list),
+        ("integrate:regions-nested-list", lambda d, a: dnp.integrate(d, dim="f2", regions=a), lambda: [[-2.0, 2.0], [3.0, 4.0]], bump_nested),
+        ("remove_background:regions-list", lambda d, a: dnp.remove_background(d, dim="f2", deg=1, regions=a), lambda: [(-10.0, -6.0)], bump_list),
+        ("remove_background:regions-nested-list", lambda d, a: dnp.remove_background(d, dim="f2", deg=0, regions=a), lambda: [[-10.0, -6.0], [6.0, 10.0]], bump_nested),
+        ("phase:array", lambda d, a: dnp.phase(d, dim="n", p0=a), lambda: np.array([10.0, 20.0, 30.0]), bump_array),
+        ("left_shift:plain", lambda d, a: dnp.left_shift(d, "f2", a[0]), lambda: [2], bump_nested if False else (lambda l: l.__setitem__(0, 5))),
+    ]
+    for nh in (0, 1, 3):
+        for name, call, mk, bump in cases:
+            d = base(nh)
+            arg = mk()
+            n_eval += 1
+            try:
+                with warnings.catch_warnings():
+                    warnings.simplefilter("ignore")
+                    with contextlib.redirect_stdout(io.StringIO()):
+                        r1 = call(d, arg)
+            except Exception:  # noqa: BLE001
+                continue
+            if not isinstance(r1, dnp.DNPData):
+                continue
+            log1 = copy.deepcopy(list(r1.proc_attrs))
+            key = None
+            bump(arg)                                   # the caller changes what it passed …
+            if not _eq(list(r1.proc_attrs), log1):
+                key = "C11:recorded-parameters-follow-the-callers-object:" + name
+            if key is None:
+                try:
+                    with warnings.catch_warnings():
+                        warnings.simplefilter("ignore")
+                        with contextlib.redirect_stdout(io.StringIO()):
+                            r2 = call(r1 if "f2" in r1.dims and name.split(":")[0] != "integrate" else d, arg)   # … and uses it for the next step
+                    if not _eq(list(r1.proc_attrs), log1):
+                        key = "C11:earlier-result-history-changed-by-next-step:" + name
+                    elif r2 is not None and "f2" in r1.dims and name.split(":")[0] != "integrate" and not _eq(list(r2.proc_attrs)[: len(log1)], log1):
+                        key = "C11:prefix-lost:after-caller-reuse:" + name
+                except Exception:  # noqa: BLE001
+                    pass
+            if key is None:
+                # the result's own arrays change in place (a later in-place step, a user edit): the log does not follow
+                try:
+                    r1.values[...] = 0
+                    for c in r1.coords.coords:
+                        np.asarray(c)[...] = -1
+                except Exception:  # noqa: BLE001
+                    pass
+                if not _eq(list(r1.proc_attrs), log1):
+                    key = "C11:recorded-parameters-follow-the-results-arrays:" + name
+            if key:
+                fails.append({"key": key, "clause": key, "ops": [{"function": name, "history_entries": nh}]})
+    seen, uniq = set(), []
+    for f in fails:
+        if f["key"] not in seen:
+            seen.add(f["key"]); uniq.append(f)
+    return uniq, n_eval
+
+
 def run(tier, seed, escalate=False):
     res = P.run(tier, seed, escalate)
     fails, n_eval, fns = registry_history("thorough" if escalate else tier, seed)
@@ -192,7 +276,12 @@ def run(tier, seed, escalate=False):
     for f in fails:
         if f["key"] not in seen:
             seen.add(f["key"]); res["impl_failures"].append(f)
-    res["evaluations"] += n_eval
+    fails2, n2 = caller_reuse(tier, seed)
+    for f in fails2:
+        if f["key"] not in seen:
+            seen.add(f["key"]); res["impl_failures"].append(f)
+    res["evaluations"] += n_eval + n2
+    res["distribution"]["caller_reuse_cases"] = n2
     res["distribution"]["registry_calls"] = n_eval
     res["distribution"]["registry_functions_returning_objects"] = fns
     return res
